@@ -117,7 +117,8 @@ def gen_update_case(r, tier):
         ops.append(("multicast_relay=", True))
     if r.random() < 0.2:
         ops.append(("fragmentation=", False))
-    if r.random() < 0.2:
+    if r.random() < 0.2 and role not in ("mesh", "meshnode"):
+        # (mesh classes assert ret_sys_msg and rely on it: "This bool attribute is asserted on mesh network nodes")
         ops.append(("ret_sys_msg=", r.random() < 0.5))
     frames = []
     table = [(op[1], op[2]) for op in ops if op[0] == "set_address"]
